@@ -159,6 +159,23 @@ def _single_case(draw, kind, form, ranks=None):
         modes = draw(st.lists(st.integers(0, nd - 1), unique=True, min_size=1, max_size=nd).map(sorted))
     c["specs"] = [{"kind": kind, "form": "list" if form.startswith("list") else form, "param": param, "modes": modes,
                    "short": bool(form == "list_partial" and draw(st.booleans()))}]
+    if kind == "normalize":
+        # tiny data scale relative to the dtype: max-normalisation must still bring max|factor| to exactly 1
+        # (float64 entries ~1e-20 << eps(float64), float32 entries ~1e-9 << eps(float32))
+        c["tiny"] = draw(st.sampled_from([None, None, "f64", "f64", "f32"]))
+        if c["tiny"]:
+            c["x"]["xscale"] = 1e-20 if c["tiny"] == "f64" else 1e-9
+            if c["tiny"] == "f32":
+                # measured on HEAD: with >= 2 outer sweeps ~4 % of the float32 tiny-scale runs reach a prox input that
+                # cancels to exactly 0 in float32 (x_split - dual), and max-normalising 0 is 0/0 (undefined input, not
+                # asserted - DESIGN C12 soundness note); budgets 0-1 are sound in every measured case
+                c["n_iter"] = min(c["n_iter"], 1)
+            # built-in inits only: a user init with an all-zero column makes the ADMM iterate cancel to an exactly zero
+            # prox input at this scale (x_split == dual bit for bit), and max-normalising 0 is 0/0 - undefined input
+            if c["init"] == "user" or draw(st.booleans()):
+                c["init"] = "svd"          # the svd init puts the data scale into factor 0
+                c.pop("uinit", None)
+                c.pop("fixed", None)
     return c
 
 
@@ -191,6 +208,9 @@ def _kwargs(c, nd):
 def _init(c):
     if c["init"] == "user":
         w, f = gen.dec_cp(c["uinit"])
+        if c.get("tiny") == "f32":
+            w = None if w is None else w.astype(np.float32)
+            f = [a.astype(np.float32) for a in f]
         return (w, f)
     return c["init"]
 
@@ -212,6 +232,8 @@ def o_feasible(c):
     if not np.any(x):
         discard("zero tensor")
     nd = x.ndim
+    if c.get("tiny") == "f32":
+        x = x.astype(np.float32)
     kw = _kwargs(c, nd)
     res = _call(c, x.copy(), kw)
     try:
@@ -241,7 +263,7 @@ def o_feasible(c):
     except Exception:  # noqa
         pass
     labels = [f"order={nd}", f"data={c['x']['kind']}", f"init={c['init']}", f"n_iter={c['n_iter']}", f"rank={c['rank']}",
-              f"active={active}", f"class={c['via_class']}", f"inspected={min(inspected, 4)}"]
+              f"active={active}", f"class={c['via_class']}", f"inspected={min(inspected, 4)}", f"tiny={c.get('tiny')}"]
     for sp in c["specs"]:
         labels.append(f"kind={sp['kind']}/{sp['form']}{'/short' if sp.get('short') else ''}")
     return {"nontrivial": inspected > 0 and active != "False", "labels": labels}
